@@ -44,6 +44,8 @@ pub struct GenModel {
     mixed_sizes: AtomicU64,
     checked_last: AtomicU64,
     monitor: std::sync::Arc<HangMonitor>,
+    /// violating histories as the explorer found them (reported without stateright's path reconstruction)
+    found: std::sync::Mutex<Vec<(Vec<Op>, String)>>,
 }
 
 /// Replay a history on a fresh real generator and check every clause of the statement.
@@ -106,7 +108,11 @@ impl Model for GenModel {
     type State = HState;
     type Action = Op;
     fn init_states(&self) -> Vec<HState> {
-        vec![HState { hist: vec![], finished: false, bad: replay_history(&self.engine, &self.labels, &self.oneshot, &[]).err() }]
+        let bad = replay_history(&self.engine, &self.labels, &self.oneshot, &[]).err();
+        if let Some(b) = &bad {
+            self.found.lock().unwrap().push((vec![], b.clone()));
+        }
+        vec![HState { hist: vec![], finished: false, bad }]
     }
     fn actions(&self, s: &HState, out: &mut Vec<Op>) {
         if s.hist.len() < self.depth && !s.finished && s.bad.is_none() {
@@ -131,6 +137,9 @@ impl Model for GenModel {
         }
         let _watch = self.monitor.enter(|| format!("history {:?}", hist));
         let bad = replay_history(&self.engine, &self.labels, &self.oneshot, &hist).err();
+        if let Some(b) = &bad {
+            self.found.lock().unwrap().push((hist.clone(), b.clone()));
+        }
         Some(HState { finished: a == Op::Finish, hist, bad })
     }
     fn properties(&self) -> Vec<Property<Self>> {
@@ -247,6 +256,7 @@ pub fn run(tier: Tier) -> i32 {
                 mixed_sizes: Default::default(),
                 checked_last: Default::default(),
                 monitor: monitor.clone(),
+                found: Default::default(),
             };
             let checker = model.checker().threads(threads).target_max_depth(depth + 2).spawn_bfs().join();
             counts.push(checker.unique_state_count());
@@ -265,9 +275,12 @@ pub fn run(tier: Tier) -> i32 {
             rep.note(&format!("case_{}", case_no.fetch_add(1, Ordering::Relaxed)), json!({"voice": case.name, "frames": nframes, "fperiod": fp, "depth": depth, "unique_states": checker.unique_state_count(), "transitions": tr, "finish_after_k_steps": fin, "histories_with_mixed_buffer_sizes": checker.model().mixed_sizes.load(Ordering::Relaxed)}));
             rep.guard((0..=nframes.min(depth - 1)).all(|k| fin.contains(&k)), "generate_all not reached after every k");
             rep.guard(nframes == 0 || checker.model().mixed_sizes.load(Ordering::Relaxed) > 0, "no history with two buffer sizes");
-            for (_n, path) in checker.discoveries() {
-                let last = path.last_state().clone();
-                let what = last.bad.clone().unwrap_or_default();
+            let found = checker.model().found.lock().unwrap().clone();
+            for (hist, what) in found {
+                struct L {
+                    hist: Vec<Op>,
+                }
+                let last = L { hist };
                 let key = if what.contains("panic") {
                     format!("panic@{}", site_of(&what))
                 } else if what.contains("generate_all") {
